@@ -15,6 +15,7 @@ def run(rep, W, ctx):
     S.s_txn2(rep, W)                    # "atomic": the transaction is exclusive from begin to commit
     S.s_cas(rep, W)
     S.s_txn3(rep, W, body)
+    S.s_failstop_all(rep, W)          # a failed storage step is never retried / patched up inside the transaction
     S.s_wmc(rep, W, only=[WD.tm("add_version")])
     S.c01_key(rep, W)                   # stored with exactly the submitted parent and payload; becomes the latest
     S.c02_cnt(rep, W)                   # "nothing about the client changes" on reject / counter bookkeeping on accept
